@@ -1430,3 +1430,57 @@ def canon_linear_cmp(sym):
     const = lb[1] - la[1]
     out_rel = {"<": ">", "<=": ">=", "==": "==", "!=": "!="}[rel]
     return (out_rel, co, const, la[2] | lb[2])
+
+
+def reach_corr(fn, start, avoid_blocks=(), seed_from=None, cap=100000):
+    """Reachability from `start` that keeps switches on one value consistent: two switches testing the same single-definition
+    bool / discriminant (see _switch_key) cannot take contradictory arms on one path. `seed_from` (a block) seeds the
+    assumptions with the switch edges that dominate that block - e.g. the arm in which a commit sits."""
+    asm0 = {}
+    if seed_from is not None:
+        for g in guards_of(fn, seed_from):
+            k = _switch_key(fn, g["sw"])
+            if k is None:
+                continue
+            lab = g["label"]
+            t = fn.term(g["sw"])
+            listed = tuple(v for v, _ in t[4])
+            asm0[k] = ("not", frozenset(listed)) if lab[1] == "otherwise" else ("is", lab[1])
+    ab = set(avoid_blocks)
+    init = (start, frozenset(asm0.items()))
+    seen = {init}
+    blocks = {start}
+    dq = deque([init])
+    n = 0
+    while dq:
+        n += 1
+        if n > cap:
+            return fn.reach(start, avoid_blocks=avoid_blocks)
+        b, asm = dq.popleft()
+        t = fn.term(b)
+        k = _switch_key(fn, b) if t[2] == "switch" else None
+        listed = tuple(v for v, _ in t[4]) if t[2] == "switch" else ()
+        for (tg, lab) in fn.succ(b):
+            if tg in ab:
+                continue
+            asm2 = asm
+            if k is not None:
+                cur = dict(asm).get(k)
+                new = ("not", frozenset(listed)) if lab[1] == "otherwise" else ("is", lab[1])
+                if cur is not None:
+                    if cur[0] == "is":
+                        if (new[0] == "is" and new[1] != cur[1]) or (new[0] == "not" and cur[1] in new[1]):
+                            continue
+                        new = cur
+                    else:
+                        if new[0] == "is" and new[1] in cur[1]:
+                            continue
+                        if new[0] == "not":
+                            new = ("not", cur[1] | new[1])
+                asm2 = frozenset([(k2, v2) for (k2, v2) in asm if k2 != k] + [(k, new)])
+            st = (tg, asm2)
+            if st not in seen:
+                seen.add(st)
+                blocks.add(tg)
+                dq.append(st)
+    return blocks
